@@ -398,13 +398,20 @@ func init() {
 		o, ob, e := hp.callOutcome(jU64(in["seqNr"]), jOutcome(in["prev"]), aos)
 		// the same call on the node that has been running since the start of the run (one long-lived plugin per
 		// configuration, thousands of calls old): Outcome is a function of its arguments, so both must agree
-		longLivedMu.Lock() // OCR3 never runs two Outcome() calls of one instance at the same time
-		defer longLivedMu.Unlock()
-		if lived, lerr := longLivedPlugin(jCfg(in["cfg"]), jBool(in["telemetry"])); lerr == nil {
-			lived.cache.table = map[string]llo.RetirementReport{}
-			lived.loadAttestations(in["attestations"])
-			_, lob, le := lived.callOutcome(jU64(in["seqNr"]), jOutcome(in["prev"]), aos)
-			if (e == nil) != (le == nil) || !bytes.Equal(ob, lob) || (e != nil && jStr(e["err"]) != jStr(le["err"])) {
+		if !inConcurrent.Load() { // (not in the concurrent phase: the one instance would serialise it)
+			differs := func() bool {
+				longLivedMu.Lock() // OCR3 never runs two Outcome() calls of one instance at the same time
+				defer longLivedMu.Unlock()
+				lived, lerr := longLivedPlugin(jCfg(in["cfg"]), jBool(in["telemetry"]))
+				if lerr != nil {
+					return false
+				}
+				lived.cache.table = map[string]llo.RetirementReport{}
+				lived.loadAttestations(in["attestations"])
+				_, lob, le := lived.callOutcome(jU64(in["seqNr"]), jOutcome(in["prev"]), aos)
+				return (e == nil) != (le == nil) || !bytes.Equal(ob, lob) || (e != nil && jStr(e["err"]) != jStr(le["err"]))
+			}()
+			if differs {
 				return J{"ok": nil, "_clobbered": true, "_clobbered_by": "Outcome() on the plugin instance that has served the whole run differs from Outcome() on a freshly built one (state kept between calls)"}
 			}
 		}
